@@ -7,8 +7,12 @@ Inductive result (A : Type) : Type := Ok (a : A) | Panic.
 Arguments Ok {A} a.
 Arguments Panic {A}.
 
-Definition last_opt {A} (l : list A) : option A :=
-  match rev l with [] => None | x :: _ => Some x end.
+Fixpoint last_opt {A} (l : list A) : option A :=
+  match l with
+  | [] => None
+  | [x] => Some x
+  | _ :: t => last_opt t
+  end.
 
 (* ====================================================================================== *)
 (* vxfw/list.Dynamic                                                                       *)
@@ -22,11 +26,12 @@ Definition d_init : dstate := mkD 0 0 0 0 false.
 Record child := mkC { c_idx : Z; c_row : Z; c_col : Z; c_h : Z }.
 
 (* The BuilderFunc oracle: item heights as a list; Builder(i) is nil iff i is not an index *)
-Definition builder (hs : list Z) (i : Z) : option Z := zget hs i.
+(* (the length test first: an index may be as large as 2^64-1) *)
+Definition builder (hs : list Z) (i : Z) : option Z := if zlen hs <=? i then None else zget hs i.
 
 (* heights of items i, i+1, ... (the widgets the downward loop of Draw obtains) *)
 Definition items_from (hs : list Z) (i : Z) : list Z :=
-  if i <? 0 then [] else skipn (Z.to_nat i) hs.
+  if (i <? 0) || (zlen hs <=? i) then [] else skipn (Z.to_nat i) hs.
 
 (* heights of items t, t-1, ..., 0; empty when Builder(t) is nil *)
 Definition items_back (hs : list Z) (t : Z) : list Z :=
@@ -116,43 +121,55 @@ Fixpoint reset_loop (cs : list child) (k top off : Z) : Z * Z :=
               else reset_loop t (k + 1) top off
   end.
 
+(* first half of Draw: pending scroll, upward insertion, downward loop.
+   Result: (scroll.top, scroll.offset, children) *)
+Definition draw_layout (gap : Z) (dc : bool) (hs : list Z) (H : Z) (st : dstate) : Z * Z * list child :=
+  let co := coloff dc in
+  let ah0 := - (d_off st + d_pend st) in
+  let '(ah1, off1) := if (0 <? ah0) && (d_top st =? 0) then (0, 0) else (ah0, d_off st) in
+  let i0 := d_top st in
+  let '(top2, off2, ins, ah2) :=
+    if 0 <? ah1 then
+      let '(t, o, cs) := insert_children hs co (d_top st) ah1 in
+      match last_opt cs with
+      | Some l => (t, o, cs, c_row l + c_h l)
+      | None => (t, o, cs, ah1)
+      end
+    else (d_top st, off1, [], ah1) in
+  (top2, off2, ins ++ down_loop (items_from hs i0) i0 ah2 (d_wants st) (d_cur st) H gap co).
+
+(* index of the cursored widget in the child list: cursor >= top && cursor-top < len *)
+Definition cursor_hit (cur top2 : Z) (cs : list child) : bool :=
+  (top2 <=? cur) && (u64 (cur - top2) <? zlen cs).
+
+(* DrawCursor: the cursored child is wrapped into a surface at column 0 *)
+Definition draw_cursor (dc : bool) (cur top2 : Z) (cs : list child) : option (list child) :=
+  if dc && cursor_hit cur top2 cs
+  then match zget cs (u64 (cur - top2)) with
+       | Some c => zupd cs (u64 (cur - top2)) (mkC (c_idx c) (c_row c) 0 (c_h c))
+       | None => None
+       end
+  else Some cs.
+
+(* wantsCursor: move everything up so that the cursored child ends at the last row *)
+Definition draw_follow (wants : bool) (cur top2 H : Z) (cs : list child) : option (list child * bool) :=
+  if wants && cursor_hit cur top2 cs
+  then match zget cs (u64 (cur - top2)) with
+       | Some c => let b := c_row c + c_h c in
+                   Some (if H <? b then shift (H - b) cs else cs, false)
+       | None => None
+       end
+  else Some (cs, wants).
+
 Definition draw (gap : Z) (dc : bool) (hs : list Z) (W H : Z) (st : dstate)
   : result (list child * dstate) :=
   if (H =? 65535) || (W =? 65535) then Panic      (* unbounded height or width *)
   else
-    let co := coloff dc in
-    let ah0 := - (d_off st + d_pend st) in
-    let '(ah1, off1) := if (0 <? ah0) && (d_top st =? 0) then (0, 0) else (ah0, d_off st) in
-    let i0 := d_top st in
-    let '(top2, off2, ins, ah2) :=
-      if 0 <? ah1 then
-        let '(t, o, cs) := insert_children hs co (d_top st) ah1 in
-        match last_opt cs with
-        | Some l => (t, o, cs, c_row l + c_h l)
-        | None => (t, o, cs, ah1)
-        end
-      else (d_top st, off1, [], ah1) in
-    let cs := ins ++ down_loop (items_from hs i0) i0 ah2 (d_wants st) (d_cur st) H gap co in
-    let idx := u64 (d_cur st - top2) in
-    let hit := (top2 <=? d_cur st) && (idx <? zlen cs) in
-    (* DrawCursor: the cursored child is wrapped into a surface at column 0 *)
-    let r1 := if dc && hit
-              then match zget cs idx with
-                   | Some c => zupd cs idx (mkC (c_idx c) (c_row c) 0 (c_h c))
-                   | None => None
-                   end
-              else Some cs in
-    match r1 with
+    let '(top2, off2, cs) := draw_layout gap dc hs H st in
+    match draw_cursor dc (d_cur st) top2 cs with
     | None => Panic
     | Some cs1 =>
-        let r2 := if d_wants st && hit
-                  then match zget cs1 idx with
-                       | Some c => let b := c_row c + c_h c in
-                                   Some (if H <? b then shift (H - b) cs1 else cs1, false)
-                       | None => None
-                       end
-                  else Some (cs1, d_wants st) in
-        match r2 with
+        match draw_follow (d_wants st) (d_cur st) top2 H cs1 with
         | None => Panic
         | Some (cs2, wants2) =>
             let '(top3, off3) := reset_loop cs2 0 top2 off2 in
@@ -230,34 +247,32 @@ Definition valid_index (c n : Z) : bool := (0 <=? c) && ((c <? n) || ((n =? 0) &
 (* scroll state anchored inside the top item: 0 <= offset, and offset < height(top) unless 0 *)
 Definition ioff (hs : list Z) (st : dstate) : bool :=
   (0 <=? d_off st) &&
-  ((d_off st =? 0) || match zget hs (d_top st) with Some h => d_off st <? h | None => false end).
+  ((d_off st =? 0) || match builder hs (d_top st) with Some h => d_off st <? h | None => false end).
 
 Definition heights_ok (hs : list Z) (cs : list child) : bool :=
-  forallb (fun c => option_eqb Z.eqb (zget hs (c_idx c)) (Some (c_h c))) cs.
+  forallb (fun c => option_eqb Z.eqb (builder hs (c_idx c)) (Some (c_h c))) cs.
 
-Fixpoint consecutive (cs : list child) : bool :=
-  match cs with
-  | a :: ((b :: _) as t) => (c_idx b =? c_idx a + 1) && consecutive t
+(* [adj R l]: every two neighbours of l are related by R *)
+Fixpoint adj {A} (R : A -> A -> bool) (l : list A) : bool :=
+  match l with
+  | a :: ((b :: _) as t) => R a b && adj R t
   | _ => true
   end.
+
+(* drawn children are in index order *)
+Definition consecutive (cs : list child) : bool :=
+  adj (fun a b => c_idx b =? c_idx a + 1) cs.
 
 (* each child starts where the previous one ends plus the gap; children inserted above the
    previous top item ([c_idx a < top0]) are stacked without the gap (finding class gap-insert) *)
-Fixpoint spacing (gap top0 : Z) (cs : list child) : bool :=
-  match cs with
-  | a :: ((b :: _) as t) =>
-      (c_row b =? c_row a + c_h a + (if c_idx a <? top0 then 0 else gap)) && spacing gap top0 t
-  | _ => true
-  end.
+Definition spacing (gap top0 : Z) (cs : list child) : bool :=
+  adj (fun a b => c_row b =? c_row a + c_h a + (if c_idx a <? top0 then 0 else gap)) cs.
 
 (* exact-gap layout: the statement of the property, refuted for gap > 0 by the class above *)
 Definition spacing_exact (gap : Z) (cs : list child) : bool := spacing gap 0 cs.
 
-Fixpoint no_overlap (cs : list child) : bool :=
-  match cs with
-  | a :: ((b :: _) as t) => (c_row a + c_h a <=? c_row b) && no_overlap t
-  | _ => true
-  end.
+Definition no_overlap (cs : list child) : bool :=
+  adj (fun a b => c_row a + c_h a <=? c_row b) cs.
 
 Definition cols_ok (dc : bool) (cur : Z) (cs : list child) : bool :=
   forallb (fun c => c_col c =? (if dc && (c_idx c =? cur) then 0 else coloff dc)) cs.
